@@ -8,6 +8,7 @@ import (
 	"math/rand"
 	"sort"
 	"strings"
+	"sync"
 
 	openfgav1 "github.com/openfga/api/proto/openfga/v1"
 
@@ -238,12 +239,42 @@ func leak(c *vk.Ctx, r *rand.Rand, pA *sem.Prepared, S, C []*openfgav1.TupleKey,
 						}
 					}
 				}
+				if f == "" && strings.Contains(cfg, "v2") && o.Err == nil {
+					// the same engine without any cache on the same store and contextual set: the same answer is the
+					// engine's deviation (C03's subject), not something a cache carried over from another request
+					if tw := uncachedV2(srv); tw != nil {
+						to := tw.Check(drive.Req{Store: pA.Store, Object: rq.Object, Relation: rq.Relation, User: rq.User, Contextual: sets[k]})
+						if to.Err == nil && to.Allowed == o.Allowed {
+							c.Count("engine_deviations_also_without_cache(not_judged_here)", 1)
+							continue
+						}
+					}
+				}
 				c.Violation(f, fmt.Sprintf("leak|%s|%s|%s", cfg, v, ref.Shape(pA.Ref.Rewrite(typeOf(rq.Object), rq.Relation))),
 					fmt.Sprintf("on %s, Check(%s#%s@%s) with contextual set %d answered %s, reference %s%s", cfg, rq.Object, rq.Relation, rq.User, k, o, want, leaked),
 					witness(pA, mode, rq, sets[k], want.String(), o.String()))
 			}
 		}
 	}
+}
+
+var (
+	twinMu sync.Mutex
+	twinV2 *drive.Srv
+)
+
+// uncachedV2 returns a weighted-graph server without caches on the datastore of the given server.
+func uncachedV2(on *drive.Srv) *drive.Srv {
+	twinMu.Lock()
+	defer twinMu.Unlock()
+	if twinV2 == nil {
+		s, err := drive.NewShared(drive.Cfg{V2: true}, on)
+		if err != nil {
+			return nil
+		}
+		twinV2 = s
+	}
+	return twinV2
 }
 
 func typeOf(o string) string { t, _ := ref.SplitObject(o); return t }
